@@ -328,14 +328,30 @@ class SInt:
     def __index__(s): return ENG.concretize(s.z)
     def __hash__(s): return hash(ENG.concretize(s.z))
     def __float__(s): return float(ENG.concretize(s.z))
+    def _len_faithful(s):
+        """placeholder with the right number of characters: forks on the sign and the digit count only"""
+        neg = ENG.branch(s.z < 0)
+        a = -s.z if neg else s.z
+        d = 1
+        while d < 80 and ENG.branch(a >= 10 ** d):
+            d += 1
+        return ("-" if neg else "") + "9" * d
+
     def __str__(s):
-        # harnesses whose code under test only formats numbers into messages set eng.opaque_str (listed as a stub)
-        if getattr(ENG, "opaque_str", False):
+        # harnesses whose code under test only formats numbers into messages set eng.opaque_str (listed as a stub);
+        # opaque_str == "len" keeps the length of the decimal rendering faithful (for code whose result's length is the subject)
+        mode = getattr(ENG, "opaque_str", False)
+        if mode == "len":
+            return s._len_faithful()
+        if mode:
             return "<sym>"
         return str(ENG.concretize(s.z))
 
     def __format__(s, spec):
-        if getattr(ENG, "opaque_str", False):
+        mode = getattr(ENG, "opaque_str", False)
+        if mode == "len" and spec == "":
+            return s._len_faithful()
+        if mode and mode != "len":
             return "<sym>"
         return format(ENG.concretize(s.z), spec)
     def __repr__(s): return f"SInt({z3.simplify(s.z)})"
